@@ -121,6 +121,14 @@ def fixed_corpus():
     add(D([A3, B3, C3], cross('ABC', 'A', [['LatinSquare', ['A', 'B', 'C']], ['MinimumTrials', 6]])))
     add(D([A2, B2, C2], cross('ABC', 'AB', [['MinimumTrials', 10], ['AtMostKInARow', 2, 'A', 'a0']])))
     add(D([A2, B2, TRA], cross('ABR', 'AR', [['MinimumTrials', 8]])))
+    # crossed derived factor whose levels admit different numbers of source combinations
+    add(D([A2, C3, within('G', ['A', 'C'], preds=(('table', [['a0', 'c0'], ['a1', 'c0'], ['a1', 'c1']]), 'else'))],
+          cross('ACG', 'AG', [['MinimumTrials', 5]])))
+    add(D([A2, C2, within('G', ['A', 'C'], preds=(('table', [['a0', 'c0']]), 'else'))],
+          cross('ACG', 'G', [['MinimumTrials', 3]])))
+    add(D([A2, C3, within('G', ['A', 'C'], preds=(('table', [['a0', 'c0'], ['a1', 'c0'], ['a1', 'c1']]), 'else'))],
+          cross('ACG', 'AG')))
+    add(D([A3, {'name': 'B', 'levels': ['b0', 'b1', 'b2', 'b3']}], cross('AB', 'A')))   # 21 trial variables
     # ---- weights ---------------------------------------------------------------------------------------------------
     add(D([AW, B2], cross('AB', 'AB')))
     add(D([AW, B2], cross('AB', 'AB', [['MinimumTrials', 8]])))
